@@ -5,7 +5,7 @@ CONSTANTS
   RdsUnit = "sec"
   NK = 2
   ValSet = {1, 2}
-  TTLSet = {0, 1, 2}
+  TTLSet = {1}
   SizeSet = {0, 1, 2}
   DTTLSet = {0, 2}
   TickSet = {1, 2}
